@@ -16,4 +16,15 @@ ClipInRange ==
   \A q \in ToyQuads(text) : ClipError(text, q) \/ ValidRect(text, Clip(text, q))
 FlatRoundTrip == Unflat(Flat(text), <<>>) = text
 
+(* ----- vacuity guard without -coverage: count the calls per kind and outcome -- *)
+(* (registers are per worker; the model is run with one worker)                *)
+Reg(c, o) == CASE c = "put_src" /\ o = "ok" -> 1 [] c = "put_src" -> 2
+               [] c = "raw_put" /\ o = "ok" -> 3 [] c = "raw_put" -> 4
+               [] c = "reparse" /\ o = "ok" -> 5 [] c = "reparse" -> 6
+               [] c = "put_none" -> 7 [] c = "clip_error" -> 8 [] OTHER -> 9
+ASSUME \A i \in 1..9 : TLCSet(i, 0)
+CountCalls == TLCSet(Reg(call', out'), TLCGet(Reg(call', out')) + 1)        \* ACTION_CONSTRAINT, always TRUE
+AllKindsTaken == /\ PrintT(<<"CALLS", [i \in 1..8 |-> TLCGet(i)]>>)
+                 /\ \A i \in 1..8 : TLCGet(i) > 0                          \* POSTCONDITION
+
 =============================================================================
